@@ -59,6 +59,7 @@ Match(r) ==
   /\ r.o = a.v[2]
   /\ r.f = a.v[3]
   /\ Required(Me) \subseteq HeldOf(r)
+  /\ (a.l \in CallsOut => HeldOf(r) = {})          \* nothing held where ggql calls into application code
   /\ IF a.v[1] = "meta" THEN r.m = meta[a.v[2]] ELSE r.b = bind[<<a.v[2], a.v[3]>>].k
 
 Verdict(ok, why) ==
@@ -121,6 +122,8 @@ Why ==
               \o " on " \o Acc(Me).v[2] \o "." \o Acc(Me).v[3]
        ELSE IF ~(Required(Me) \subseteq HeldOf(Rec))
        THEN "access " \o Rec.l \o " on " \o Rec.o \o "." \o Rec.f \o " without the lock the model requires"
+       ELSE IF Acc(Me).l \in CallsOut /\ HeldOf(Rec) # {}
+       THEN "the call into application code at " \o Rec.l \o " on " \o Rec.o \o "." \o Rec.f \o " is made with a lock held"
        ELSE "access " \o Rec.l \o " on " \o Rec.o \o "." \o Rec.f \o " saw a value the model does not have there"
   ELSE IF HasRec /\ Rec.t = "acc"
   THEN "logged access " \o Rec.l \o " on " \o Rec.o \o "." \o Rec.f \o " after the model finished"
